@@ -249,12 +249,12 @@ func attemptsProfile(r *rand.Rand, idx int, tier string) *eng.Case {
 		for i := 0; i < n; i++ {
 			st := plug.Step{Out: outs[r.Intn(len(outs))], SleepUS: r.Intn(1500)}
 			if st.Out == plug.Overrun {
-				a.TimeoutMS = 60
+				a.TimeoutMS = 250
 				st.SleepUS = 0
 			}
 			a.Steps = append(a.Steps, st)
 		}
-		// non-overrun steps of an action with a 60 ms timeout must stay far below it
+		// non-overrun steps of an action with a 60 ms timeout must stay far below it (250 ms; a case in which one does not is inconclusive, see spuriousTimeouts)
 		return a
 	}
 	var p spec.Plan
@@ -568,6 +568,38 @@ func cosmosify(ec *eng.Case) {
 	}
 }
 
+// spuriousTimeouts counts, per action, the stored timeout failures that exceed the invocations scripted to overrun.
+func spuriousTimeouts(t *oracle.Trace, final *spec.PlanView) int {
+	n := 0
+	if final == nil {
+		return 0
+	}
+	for _, o := range final.Objs {
+		if o.Kind != "action" {
+			continue
+		}
+		timeouts := 0
+		for _, at := range o.Attempts {
+			if at.HasErr && strings.Contains(at.ErrMsg, "timed out") {
+				timeouts++
+			}
+		}
+		if timeouts == 0 {
+			continue
+		}
+		overruns := 0
+		for _, inv := range t.Of(o.Addr) {
+			if inv.Out == plug.Overrun {
+				overruns++
+			}
+		}
+		if timeouts > overruns {
+			n += timeouts - overruns
+		}
+	}
+	return n
+}
+
 func engineRun(prop string, profile engineProfile, orc engineOracle, hangIsViolation bool) func(c *Ctx, idx int) CaseResult {
 	return func(c *Ctx, idx int) CaseResult {
 		r := gen.Rand(c.Seed, prop, idx)
@@ -763,9 +795,17 @@ func init() {
 	})
 	register(&Prop{
 		ID: "C05", Level: "exploration", Batch: 16, PerCaseTimeout: 90 * time.Second,
-		Rule:  "case i = PRNG(seed,i) plan whose every action has Retries 0-4 and a script of up to Retries+2 outcomes over {ok, transient, permanent, wrongtype, wrongtype together with a retryable error, right type with the wrong pointer-ness, overrun}; stored through vault.Create so that overrun actions can have a 60 ms timeout; every 10th case explores every crash point of a strictly sequential plan with retry budgets and transient failures and checks the call budget against the durable attempts, the total number of calls across the crash and the final attempt record; every 40th case is a cosmosdb crash case (process death between two client writes, plans with re-run continuous checks that have retry budgets) whose recovered plans must carry consistent attempt records (no attempts on a NotStarted action, status agrees with the final attempt); non-trivial = the case contained a retried, overrun or wrong-type invocation; distinct by script hash",
+		Rule:  "case i = PRNG(seed,i) plan whose every action has Retries 0-4 and a script of up to Retries+2 outcomes over {ok, transient, permanent, wrongtype, wrongtype together with a retryable error, right type with the wrong pointer-ness, overrun}; stored through vault.Create so that overrun actions can have a 250 ms timeout (a case in which a call scripted to return at once runs into that timeout is inconclusive); every 10th case explores every crash point of a strictly sequential plan with retry budgets and transient failures and checks the call budget against the durable attempts, the total number of calls across the crash and the final attempt record; every 40th case is a cosmosdb crash case (process death between two client writes, plans with re-run continuous checks that have retry budgets) whose recovered plans must carry consistent attempt records (no attempts on a NotStarted action, status agrees with the final attempt); non-trivial = the case contained a retried, overrun or wrong-type invocation; distinct by script hash",
 		Cases: nCases(80, 2500),
 		Run: everyNth(40, cosmosFor("C05"), everyNth(10, c05Crash, engineRun("C05", attemptsProfile, func(c *eng.Case, run *eng.Run, pr *eng.PlanRun, t *oracle.Trace, res *CaseResult) {
+			if n := spuriousTimeouts(t, pr.P0); n > 0 {
+				// a call that is scripted to return at once was overtaken by the action's timeout: the machine is too
+				// slow for the timeouts of this profile, nothing about attempts can be concluded from this case
+				res.Verdict = "inconclusive"
+				res.Note = fmt.Sprintf("%d invocation(s) scripted to return at once ran into the action timeout (machine too slow)", n)
+				res.Counters["spurious_timeouts"] += n
+				return
+			}
 			res.Viols = append(res.Viols, oracle.C05(pr.Spec, t, pr.P0)...)
 			var sb strings.Builder
 			for _, inv := range t.Invs {
@@ -833,7 +873,7 @@ func init() {
 	})
 	register(&Prop{
 		ID: "C08", Level: "exploration", Batch: 16, PerCaseTimeout: 70 * time.Second,
-		Rule:  "case i = PRNG(seed,i) from the 'order' profile with retries and vault delays of up to 3 ms before/after every storage call; every second case (single plan) has a goroutine polling Plan(id) every 3 ms; every tenth case uses the C05 script alphabet (overrun, wrong type, exhausted budgets; 60 ms timeouts through vault.Create); every tenth case is a fault case: a strictly sequential plan runs in a grandchild process on a vault whose PRNG-chosen k-th write fails, every event journalled synchronously: no plugin invocation may begin after the failed write and Wait must not return; distinct by final-status hash",
+		Rule:  "case i = PRNG(seed,i) from the 'order' profile with retries and vault delays of up to 3 ms before/after every storage call; every second case (single plan) has a goroutine polling Plan(id) every 3 ms; every tenth case uses the C05 script alphabet (overrun, wrong type, exhausted budgets; 250 ms timeouts through vault.Create); every tenth case is a fault case: a strictly sequential plan runs in a grandchild process on a vault whose PRNG-chosen k-th write fails, every event journalled synchronously: no plugin invocation may begin after the failed write and Wait must not return; distinct by final-status hash",
 		Cases: nCases(300, 6000),
 		Run: c08Dispatch(engineRun("C08", persistProfile, func(c *eng.Case, run *eng.Run, pr *eng.PlanRun, t *oracle.Trace, res *CaseResult) {
 			res.Viols = append(res.Viols, oracle.C08(pr.Spec, t, pr.P0)...)
